@@ -213,19 +213,7 @@ func propFinal(c harness.Case) harness.Result {
 // ---- last lines: the final-newline clause is about what the last line of the
 // input is when nothing follows it. Every kind of line that the block and
 // inline rules treat specially, as the last line of every kind of context.
-var lastLines = []string{
-	"a", "a  ", "a\\", "a\\\\", "*a", "a*", "`a", "a`", "``", "[a]", "[a][]", "[a][b]", "[a](", "[a](/u", "[a](/u)", "[a](/u \"t", "![a]", "<b", "<b>", "</b>", "<!--", "<!-- c -->", "<?x", "&amp", "&amp;", "&#35", "a&", "<http://a.b>",
-	"# h", "# h #", "#", "# ", "####### x", "#h", "===", "---", "=", "-", "--", "***", "* * *", "_ _ _", "- ", "-", "+", "*", "1.", "1. ", "1)", "10. a", "- a", "> a", ">", "> ", ">>",
-	"```", "````", "~~~", "``` go", "``` foo`", "```go`", "~~~ a`b", "~~~x~", "``` `", "`````x", "    code", "    ", "  ", "\t", "\tcode", "     x",
-	"<div>", "</div>", "<div", "<pre>", "</pre>", "<script>", "</script>", "<!-- x", "-->", "<?php", "?>", "<!X", "<![CDATA[", "]]>", "<a href=\"x\">", "<span>", "<x-y z>",
-	"[r]: /u", "[r]:", "[r]: /u \"t\"", "[r]: /u \"t", "[r]: /u 't'x", "[r]: <u>", "[r]: </u", "[r", "[r]", "\"title\"", "'t'", "(t)", "/u",
-	"|a|b|", "a | b", ":--", "\\", "\\#", "&", "<", ">", "\x00", "a\x00", "é", "\xff", "a\u00a0", "\u00a0", "\f", "a\f",
-}
 
-var lastContexts = []string{
-	"", "a\n", "a\n\n", "> ", "> a\n> ", "> a\n", "- ", "- a\n  ", "- a\n\n  ", "- a\n", "1. ", "> - ", "- > ", "```\n", "``` x\na\n", "~~~~\n", "    c\n", "    c\n\n", "<div>\n", "<pre>\n", "<!-- c\n", "<script>\n",
-	"[r]: /u\n", "[r]:\n", "[r]: /u\n\"t\n", "# h\n", "a\n===\n", "***\n", "a  \n", "a\\\n", "[a](/u\n", "`a\n", "*a\n", "<b\n", "- a\n- ", "- a\n\n- ", "> a\n\n> ", "-\n  ", "1.\n   ",
-}
 
 func lastLineCheck(t *testing.T, plan harness.Plan) {
 	const name = "last_lines"
@@ -233,8 +221,8 @@ func lastLineCheck(t *testing.T, plan harness.Plan) {
 		return
 	}
 	n := 0
-	for _, ctx := range lastContexts {
-		for _, l := range lastLines {
+	for _, ctx := range gen.LastContexts {
+		for _, l := range gen.LastLines {
 			for ending := 0; ending <= 2; ending++ {
 				c := harness.Case{In: []byte(ctx + l)}
 				c.SetI("ending", ending)
@@ -247,7 +235,7 @@ func lastLineCheck(t *testing.T, plan harness.Plan) {
 			}
 		}
 	}
-	harness.SetExhaustive(name, fmt.Sprintf("%d contexts x %d last lines x 3 line-ending styles = %d inputs", len(lastContexts), len(lastLines), n))
+	harness.SetExhaustive(name, fmt.Sprintf("%d contexts x %d last lines x 3 line-ending styles = %d inputs", len(gen.LastContexts), len(gen.LastLines), n))
 }
 
 func genPad(t *rapid.T) harness.Case {
